@@ -112,7 +112,7 @@ pub fn untrusted(st: &Step) -> bool {
 
 /// plain prehashed verification with a context longer than the documented 255 bytes
 fn unlogged(st: &Step) -> bool {
-    matches!(st, Step::Ver { mode, ctx: Some(c), .. } if c.0.len() > 255 && matches!(mode, 3 | 4 | 6 | 10 | 11))
+    matches!(st, Step::Ver { mode, ctx: Some(c), .. } if c.0.len() > 255 && matches!(mode, 3 | 4 | 6 | 10 | 11 | 12 | 13 | 14))
 }
 
 fn class_of(step: &Step, label: &str) -> String {
